@@ -89,6 +89,7 @@ pub fn replay_case(_ctx: &Ctx, sub: &'static str, case: &Case) -> Vec<(String, S
                 "c03" => vec![&inputs::check_c03],
                 "c04" => vec![&inputs::check_c04],
                 "c05" => vec![&inputs::check_c05, &values::replay_subtag_rt, &values::replay_ext_string],
+                "c12" => vec![&values::check_c12_input],
                 "c13" => vec![&inputs::check_c13],
                 "c15" => vec![&subtags::check_c15],
                 "c17" => vec![&subtags::check_raw_roundtrip, &values::check_c17_input],
